@@ -66,6 +66,7 @@ type interpreter struct {
 	fresh              int
 	goInlined          bool
 	pendingGo          []func()
+	pools              map[*value][]value
 	sh2                *worklist
 	harness            string
 	mode               InputMode
